@@ -12,7 +12,8 @@ EXPLANATION = (
 DECIDED = ["R10a both directions of the alias map are updated together (MUST)",
            "R10b only non-empty aliases, only for nodes (DOM, cut-set over guards incl. closures)",
            "R10c node removal removes its alias (MUST + value flow)",
-           "R13f undo commands in mutation order (shared with C13)"]
+           "R13f undo commands in mutation order (shared with C13)",
+           "R19t slot states of the hash tables are written only by insert / remove / full rehash (WHO table, shared)"]
 UNDECIDED = ["contents of the alias map over histories (needs execution)"]
 
 IM = "agdb::collections::indexed_map::IndexedMapImpl::"
@@ -148,4 +149,7 @@ def run(ctx):
     # "rejected without effect" relies on the rollback of alias changes: undo commands in mutation order (R13f)
     from rules import C13
     C13.undo_order_rule(ctx)
+    # tombstone discipline of the open-addressing tables behind the alias map (shared rule, rules/maps_common.py)
+    from rules import maps_common
+    maps_common.slot_state_rule(ctx)
     return 0
